@@ -46,7 +46,7 @@ P.update({
           'TLC exhausts Relay.tla - one action per reactor callback of carbon.client (arrival, self-metric, connection made/lost/failed, transport pause/resume, send timer, retry timer, stop) with the synchronous chains inside a callback - and proves FifoOnce, NormalOrder, DropsCounted, Bounded, BatchSize, StopAfterFlush and NoLoss for 1-2 destinations, flow control and dynamic router on/off; TLC-simulated event sequences and seeded random histories are executed on the real CarbonClientManager/factories/protocols (fake connector, per-factory clocks, StringTransports, real router, real pipeline wiring); every event logs the full projection including the independently decoded bytes of every connection and Relay_Trace.tla applies the callback to the previously observed state and names what differs.',
           'bytes handed to transport.write() are the observation; no datapoints injected after the orderly stop began; pickle and line client protocols (protobuf not importable)',
           TECH),
-  'C09': (True, 'FlowCache.tla, FlowCache_Trace.tla, Relay.tla, Relay_Trace.tla',
+  'C09': (True, 'FlowCache.tla, FlowCache_Trace.tla, Relay.tla, Relay_Trace.tla, Listen.tla',
           'Cache side: TLC checks NoStuck on FlowCache.tla (cacheFull chain under the lock on the reactor thread, unlocked space check and cacheSpaceAvailable chain on the writer thread, handler lists iterated by index); the real cache + events + service.py wiring + real receivers run as two threads under pre-emption-bounded, random and landmark-directed line-level schedules to quiescence and FlowCache_Trace.tla flags anyone left paused below the watermark (listed finding F8 by signature). Relay side: TLC checks NoStuck on Relay.tla and the C07 event histories, settled to quiescence, are judged by Relay_Trace.tla.',
           'quiescence excludes the 60 s self-metrics timer; MAX_CACHE_SIZE=20 pre-filled so that 1.05*MAX leaves room above MAX; landmark lines are located in the source text',
           TECH),
